@@ -18,14 +18,14 @@ func VerifH_C12_Uses() {
 	nested := vrt.Bool("nested-uses")
 	where := vrt.Choice("used-in", 4)    // 0 top level, 1 container, 2 list, 3 case
 	refine := vrt.Choice("refine", 5)    // 0 none, 1 default, 2 mandatory, 3 config false, 4 presence on the grouping's container
-	augment := vrt.Bool("augment-inside-uses")
+	augment := vrt.Choice("augment-inside-uses", 4) // 0 none, 1 a leaf, 2 a container holding a uses, 3 a uses directly
 	guard := vrt.Choice("uses-property", 3) // 0 none, 1 if-feature, 2 status deprecated
 	clash := vrt.Bool("clashing-sibling")
 
 	// ---- the grouping bodies
 	inner := "leaf il { type string; } "
 	outerOwn := "leaf ol { type string; } container gc { leaf gcl { type string; } } "
-	gtext := "grouping inner { " + inner + "} grouping outer { " + outerOwn
+	gtext := "grouping inner2 { leaf i2 { type string; } } grouping inner { " + inner + "} grouping outer { " + outerOwn
 	if nested {
 		gtext += "uses inner; "
 	}
@@ -55,8 +55,13 @@ func VerifH_C12_Uses() {
 	case 4:
 		uses += " refine gc { presence 'p'; }"
 	}
-	if augment {
+	switch augment {
+	case 1:
 		uses += " augment gc { leaf al { type string; } }"
+	case 2:
+		uses += " augment gc { container an { leaf al2 { type string; } uses " + pfx + "inner2; } }"
+	case 3:
+		uses += " augment gc { uses " + pfx + "inner2; }"
 	}
 	uses += " }"
 
@@ -76,8 +81,13 @@ func VerifH_C12_Uses() {
 		gc += " presence 'p';"
 	}
 	gc += " leaf gcl { type string; } "
-	if augment {
+	switch augment {
+	case 1:
 		gc += "leaf al { type string; } "
+	case 2:
+		gc += "container an { leaf al2 { type string; } leaf i2 { type string; } } "
+	case 3:
+		gc += "leaf i2 { type string; } "
 	}
 	gc += "} "
 	expanded := ol + gc
